@@ -25,7 +25,7 @@ class Spec:
             'drawn given the pool so far, half of the time on the slot used last; the reference model is checked after every '
             'step. A case is non-trivial if at least one view/conversion op ran and at least one pixel write or .jpg read '
             'ran; distinct = distinct digests over (executed op, observed format / writability / jpg state / pixels) of '
-            'every step among non-trivial cases. Additionally (coverage.exhaustive) every sequence of exactly d symbols '
+            'every step among non-trivial cases. Additionally (coverage.exhaustive_part) every sequence of exactly d symbols '
             '(d=3 quick, d=4 thorough; all shorter ones are prefixes, the oracle runs after every step) over the alphabet '
             '{9 view ops, copy, pickle, image, jpg, write} x {start frame, newest frame} + newdata(start) is run from 4 '
             'start frames (writable BGR, read-only RGB, lazily decoded BGR jpg, writable GRAY)')
@@ -160,7 +160,7 @@ class Spec:
                     batch.harness.append((-1, f'exhaustive worker died: {exc}'))
                 finally:
                     ex.shutdown(wait=False, cancel_futures=True)
-        return {'exhaustive': {'depth': depth, 'alphabet': len(FR.EXH_ALPHABET), 'start_frames': len(FR.EXH_STARTS),
+        return {'exhaustive_part': {'depth': depth, 'alphabet': len(FR.EXH_ALPHABET), 'start_frames': len(FR.EXH_STARTS),
                                'planned': total, 'complete': agg['sequences'] == total, 'wall_s': round(time.time() - t0, 1),
                                **agg}}
 
